@@ -4,6 +4,10 @@ mod content_pack;
 mod directory_pack;
 mod errors;
 mod manifest_pack;
+#[cfg(jubako_verif)]
+mod verif_recipient;
+#[cfg(jubako_verif)]
+pub use verif_recipient::MemRecipient;
 
 pub use crate::bases::FileSource;
 use crate::bases::InOutStream;
